@@ -455,6 +455,49 @@ def run(ctx, anchors=None):
              "%s prints `%s`: uint256::ToString reverses the bytes, so the logged running hash is the byte-reversal of the BIP341 value (and contradicts the state pane, which shows it in hashing order)" %
              ((rev[0][0].name, astq.estr(rev[0][1])[:40]) if rev else ("", "")))
 
+    # ---- R05.7 the running hash is the fold of the first m_i path nodes: the two members move together. Every write of the path
+    # index of TaprootCommitmentEnv, in whatever function, is accompanied by a write of the running hash on the same paths (the hash
+    # write dominates it, or every path on from it passes one).
+    ctx.rule("R05.7", "the path index and the running hash of the commitment check are written together")
+    rec57 = "TaprootCommitmentEnv"
+    flds = {fl["n"] for fl in fb.records.get(rec57, {}).get("fields", [])}
+    if not {"m_i", "m_k"} <= flds:
+        raise AnalysisBroken("R05.7: TaprootCommitmentEnv has no members m_i / m_k (renamed): update the rule's anchor names")
+    n57 = 0
+    for f in sorted(fb.funcs.values(), key=lambda f_: f_.id):
+        if f.body is None:
+            continue
+
+        def writes_of(name):
+            out = []
+            for n in f.nodes():
+                t = None
+                if n["k"] in ("assign", "cassign"):
+                    t = n["lhs"]
+                elif n["k"] == "un" and n.get("op") in ("++", "--"):
+                    t = n["e"]
+                elif n["k"] == "opcall" and n.get("op") in ("=",) and n.get("args"):
+                    t = n["args"][0]
+                while t is not None and t.get("k") in ("cast", "paren"):
+                    t = t["e"]
+                if t is not None and t.get("k") == "mem" and t.get("n") == name and t.get("rec") == rec57:
+                    out.append(n)
+            return out
+        wi = writes_of("m_i")
+        if not wi:
+            continue
+        wk = writes_of("m_k")
+        fcfg = f.cfg()
+        for n in wi:
+            n57 += 1
+            ctx.site()
+            ok57 = any(fcfg.dominates(k_, n) for k_ in wk) or (bool(wk) and fcfg.must_pass_after(n, wk))
+            ctx.inst(ok57, "R05.7", "index-and-hash-move-together@" + f.name.split("(")[0], f.loc(n),
+                     "`%s` is accompanied by a write of the running hash" % astq.estr(n)[:40],
+                     "%s changes the path index (`%s`) without the running hash m_k: the hash no longer is the fold of the first m_i nodes - the next step hashes a node in twice (or skips one) and a valid commitment fails"
+                     % (f.name, astq.estr(n)[:40]))
+    ctx.floor("R05.7", n57, 2, "writes of the commitment path index")
+
 
 def c02sub(t, a=("it", 0), b=("a", "i")):
     """replace term a by b everywhere"""
@@ -471,6 +514,7 @@ def size_pred_is(n):
 
 
 MUTANTS = [
+    dict(name="rewind-moves-only-the-path-index", file="instance.cpp", find="bool Instance::rewind() {\n", replace="bool Instance::rewind() {\n    if (env->tce && env->tce->m_i > 0 && env->pc == env->script.begin()) { --env->tce->m_i; --env->curr_op_seq; return true; }\n", expect=["R05.7:index-and-hash-move-together@Instance::rewind"]),
     dict(name="running-hash-shown-reversed", file="debugger/interpreter.cpp", find="        btc_taproot_logf(\"  - %d: k -> %s\\n\", m_i, HexStr(m_k).c_str());", replace="        btc_taproot_logf(\"  - %d: k -> %s\\n\", m_i, m_k.ToString().c_str());", expect=["R05.6:hashes-shown-in-hashing-order"]),
     dict(name="failed-commitment-released", file="debugger/interpreter.cpp", find="        case TaprootCommitmentEnv::State::Failed:\n            return false;", replace="        case TaprootCommitmentEnv::State::Failed:\n            delete env.tce;\n            env.tce = nullptr;\n            return false;", expect=["R05.3:failed-commitment-stays-failed"]),
     dict(name="commitment-skipped-for-empty-script", file="instance.cpp", find="    env->done &= successor_script.size() == 0 && !tce;\n", replace="    env->done &= successor_script.size() == 0;\n", expect=["R05.5:pending-commitment-not-done"]),
